@@ -633,6 +633,50 @@ func c04Lock(c *Ctx, fail func(kind, what string, rep map[string]interface{})) {
 		fail("share-saved-without-password", "after a password-expiry tick during the master-key command the saved BLS share does not open with the operator's password", map[string]interface{}{"schedule": "tick between command start and saveBLSKeyring"})
 	}
 	cl.Machines[victim] = reopen(cl, victim)
+	c04Gap(c, fail)
+}
+
+// c04Gap: the prompt of cmd/airgapped checks the password in one critical section
+// (enterEncryptionPasswordIfNeeded: Lock ... Unlock) and runs the command in the next (terExe: Lock ...
+// Unlock).  The same sequence of machine calls with a password-expiry tick in between:
+func c04Gap(c *Ctx, fail func(kind, what string, rep map[string]interface{})) {
+	cl := NewCluster(newEnvDir(c), 3, 2, "c04-gap")
+	defer cl.Close()
+	cl.Propose(0)
+	victim := 2
+	cl.RunToQuiescenceWith(func(cands []int) int { return 0 }, func(i int, o *ctypes.Operation) (bool, error) {
+		if i != victim || string(o.Type) != "state_dkg_master_key_await_confirmations" {
+			_, err := cl.Answer(i, o)
+			return true, err
+		}
+		m := cl.Machines[i]
+		// run(): enterEncryptionPasswordIfNeeded
+		m.Lock()
+		needs := m.SensitiveDataRemoved()
+		m.Unlock()
+		if needs {
+			panic("the password is expected to be present")
+		}
+		// the tick (dropSensitiveDataByTicker) fires here
+		m.DropSensitiveData()
+		// run(): terExe
+		m.Lock()
+		_, err := cl.Answer(i, o)
+		m.Unlock()
+		return true, err
+	})
+	m := cl.Machines[victim]
+	m.VerifClose()
+	dbDir := filepath.Join(cl.MDirs[victim], "db")
+	withEmpty := strings.Contains(opensWith(dbDir, []byte{}, cl.Round), "keyrings")
+	c.Case("lock-gap", true, "c04gap tick-between-password-check-and-command", fmt.Sprintf("c04gap saved-without-password=%v", withEmpty))
+	if withEmpty {
+		c.Fail(Failure{Property: "C04", Kind: "password-check-outside-command-lock",
+			Signature: map[string]interface{}{"kind": "password-check-outside-command-lock", "call_site": "cmd/airgapped/main.go run(): enterEncryptionPasswordIfNeeded then terExe"},
+			What:      "a password-expiry tick between the prompt's password check and the command (the machine lock is released in between) lets the master-key command run without the password: the BLS share is saved under an EMPTY password",
+			Replay:    map[string]interface{}{"schedule": "Lock; SensitiveDataRemoved()=false; Unlock; DropSensitiveData(); Lock; master-key operation; Unlock", "opens_with": "empty password"}})
+	}
+	cl.Machines[victim] = reopen(cl, victim)
 }
 
 // c04Rounds: two rounds on the same machines; which key material coincides
